@@ -349,7 +349,10 @@ fn verify_revealed_attribute_values(
                     attr_referent,
                 )
             })?;
-        if attr_infos.values.len() != attr_names.len() {
+        // the group must hold exactly the requested names (a request may repeat a name), so that
+        // every member of the group is checked against the proof below
+        let unique_names: HashSet<&String> = attr_names.iter().collect();
+        if attr_infos.values.len() != unique_names.len() {
             error!("Proof Revealed Attr Group does not match Proof Request Attribute Group, proof request attrs: {:?}, referent: {:?}, attr_infos: {:?}", pres_req.requested_attributes, attr_referent, attr_infos);
             return Err(err_msg!(
                 "Proof Revealed Attr Group does not match Proof Request Attribute Group",
